@@ -155,6 +155,14 @@ def check(ctx):
     tdgl_data(ctx)
     exported_records(ctx)
     dynamics_detection(ctx)
+    ctx.rule("R14.15", "a device reader that rebuilds the mesh hands the mesh builder coordinates on the scale it expects: stored mesh sites are in units "
+                       "of the coherence length, `_create_dimensionless_mesh` divides by it (shared with C18 R18.10)", 1)
+    from ..report import Shared
+    from .c18 import coordinate_scales
+    coordinate_scales(Shared(ctx, {"R18.10": "R14.15"},
+                             consequence="a device saved without its full mesh (save_mesh=False) and loaded back has a mesh that is scaled by 1/xi a second "
+                                         "time: sites, areas, edge lengths, probe indices and terminal data differ from the original for any coherence length other than 1"),
+                      repo.cls("tdgl.device.device", "Device"))
     from ..effects import serialisers_pure
     serialisers_pure(ctx, "R14.10", "saving (or pickling) an object changes it: the object in memory no longer equals what was written, "
                                     "and a second save writes something else")
